@@ -905,5 +905,8 @@ def run(ctx: Ctx, rep: Report, tier: str) -> None:
     from .c06 import normaliser_fixed_point
     from .c08 import validated_is_returned
 
+    from .c08 import operand_range
+
+    operand_range(ctx, rep, rid="R20.8")
     validated_is_returned(ctx, rep, rid="R20.7")
     normaliser_fixed_point(ctx, rep, rid="R20.7")
